@@ -464,7 +464,13 @@ class ParseTheory(CompilerTheory):
     def ev_ListComp(self, ex, e, st):
         lift = ex.c.ghost.get('comprehension')
         g = e.generators[0] if len(e.generators) == 1 else None
-        if not lift or g is None or g.ifs or ast.unparse(e) != '[self.visitTerm(ctx.term(i)) for i in range(len(ctx.term()))]':
+        if not lift or g is None or g.ifs or g.is_async or not isinstance(g.target, ast.Name):
+            return None
+        # the element-wise image of the child list under visitTerm, in order: by index or by direct iteration, any variable name
+        v_ = g.target.id
+        elt, it = ast.unparse(e.elt), ast.unparse(g.iter)
+        if (elt, it) not in (('self.visitTerm(ctx.term(%s))' % v_, 'range(len(ctx.term()))'), ('self.visitTerm(%s)' % v_, 'ctx.term()'),
+                             ('self.visitTerm(ctx.term(%s))' % v_, 'range(0, len(ctx.term()))')):
             return None
         ctx = st.env.get('ctx')
         if ctx is None or ctx.sort != 'TTL':
